@@ -41,6 +41,7 @@ inductive Err
   | h3Unreachable       -- QUIC dial failed (nobody speaks h3 at the authority)
   | protoMismatch       -- the client speaks a version the peer on that connection does not
   | customFailed        -- the user's DialTLSContext / TLSHandshakeContext returned an error
+  | proxyFailed         -- the proxy could not be reached / refused the tunnel (CONNECT ≠ 200, SOCKS5 failure)
   deriving DecidableEq, Repr
 
 /-- Outcome of one `roundTrip`: the version that carried the request, an error, or a
@@ -183,6 +184,26 @@ def carry (cfg : Cfg) (st : Option TlsState) : Route :=
   let handOff := cfg.force ≠ some .h1 &&
     (match st with | some s => s.isMutual && s.proto = some .h2 | none => false)
   if handOff then speak .h2 (peerOf st) else speak .h1 (peerOf st)
+
+/-- The hand-off condition of `dialConn` (l.2285) on its own. -/
+def handsOff (cfg : Cfg) (st : Option TlsState) : Bool :=
+  cfg.force ≠ some .h1 &&
+    (match st with | some s => s.isMutual && s.proto = some .h2 | none => false)
+
+theorem carry_eq (cfg : Cfg) (st : Option TlsState) :
+    carry cfg st = if handsOff cfg st then speak .h2 (peerOf st) else speak .h1 (peerOf st) := rfl
+
+/-- The ALPN protocol list the client OFFERS in the ClientHello of a new connection made for
+this request, per mode: forced HTTP/3 — `h3` only (`http3.RoundTripper.dial`); forced
+HTTP/2 — the client's list with `h2` put in front when absent (`newTLSConfig`); forced
+HTTP/1.1 or a request that requires HTTP/1.1 — NO list at all (`addTLS`:
+`cfg.NextProtos = nil` under the `onlyH1` key, so no server can select `h2`); otherwise the
+client's `NextProtos` verbatim. `EnableHTTP3` does not change what is offered over TCP. -/
+def offered (cfg : Cfg) (req : Req) : List Alpn :=
+  match cfg.force with
+  | some .h3 => [.h3]
+  | some .h2 => h2Protos cfg.protos
+  | f => if f = some .h1 || req.requiresH1 then [] else cfg.protos
 
 /-- `getConn`/`dialConn` + the choice between `pconn.alt.RoundTrip` and `pconn.roundTrip`. -/
 def h1Path (cfg : Cfg) (req : Req) (net : Net) : Route :=
